@@ -113,6 +113,42 @@ Definition input_file_digest (cfg : config) (b : bytes) (date : bytes) (mtime : 
     if fl_time fl then None
     else include_file_digest (H b) fl date (Some mtime).
 
+(* What preprocessor_cache_entry_hash_key feeds to the digest besides the compiler digest, the language tag and the
+   input path: every argument and every allow-listed variable (name, "=", value) through OsString's `Hash`, i.e.
+   each with its own length prefix, the extra hashes (fixed-length hex digests), and the input file digest.  With
+   an injective digest the key is therefore a function of these LISTS, not of their concatenation. *)
+Record pp_key_parts := {
+  pk_plusplus : bool;
+  pk_args : list bytes;
+  pk_extra : list bytes;
+  pk_env : list (bytes * bytes);     (* the allow-listed variables, in the order of the request *)
+  pk_input : idigest;
+}.
+
+Definition env_allowed (name : bytes) : bool := existsb (fun a => bytes_eqb a name) pp_cached_env_vars.
+
+Definition pp_key_of (cfg : config) (plusplus : bool) (args extra : list bytes) (env : list (bytes * bytes))
+           (b : bytes) (date : bytes) (mtime : N) : option pp_key_parts :=
+  match input_file_digest cfg b date mtime with
+  | None => None
+  | Some d => Some {| pk_plusplus := plusplus; pk_args := args; pk_extra := extra;
+                      pk_env := filter (fun kv => env_allowed (fst kv)) env; pk_input := d |}
+  end.
+
+Fixpoint list_eqb {A} (eqb : A -> A -> bool) (a b : list A) : bool :=
+  match a, b with
+  | [], [] => true
+  | x :: a', y :: b' => eqb x y && list_eqb eqb a' b'
+  | _, _ => false
+  end.
+
+Definition pp_key_eqb (a b : pp_key_parts) : bool :=
+  Bool.eqb (pk_plusplus a) (pk_plusplus b)
+  && list_eqb bytes_eqb (pk_args a) (pk_args b)
+  && list_eqb bytes_eqb (pk_extra a) (pk_extra b)
+  && list_eqb (fun x y => bytes_eqb (fst x) (fst y) && bytes_eqb (snd x) (snd y)) (pk_env a) (pk_env b)
+  && idigest_eqb (pk_input a) (pk_input b).
+
 Record include_entry := {
   ie_path : path;
   ie_digest : idigest;
